@@ -232,8 +232,14 @@ func (s *Server) Run(addr string, opt ...Option) error {
 		conn.disablePanicRecovery = s.disablePanicRecovery
 		localConnID := connID
 		go func() {
+			// connDone tells the shutdown watcher (below) that this connection
+			// is finished. It's only closed once conn.close() has waited for
+			// the connection's handlers: a handler can still be blocked writing
+			// to the client after serveRequests has returned.
+			connDone := make(chan struct{})
 			defer func() {
 				err := conn.close()
+				close(connDone)
 				if err != nil {
 					s.logger.Error("error closing conn", "op", op, "conn", localConnID, "conn/req", "err", err)
 					// we are intentionally not returning here; since we still
@@ -261,8 +267,6 @@ func (s *Server) Run(addr string, opt ...Option) error {
 			// waiting for as long as the client holds the connection open, so
 			// interrupt the connection's pending I/O once the server is
 			// shutting down.
-			connDone := make(chan struct{})
-			defer close(connDone)
 			go func() {
 				select {
 				case <-s.shutdownCtx.Done():
